@@ -18,11 +18,11 @@ import (
 	"unicode"
 )
 
-// VxLibProbe: coverage probe of the library models: case k calls one library function the
+// VxHLibProbe: coverage probe of the library models: case k calls one library function the
 // way a refactoring or a change of scipipe might, on a symbolic string s (<= 3 bytes of
 // the path alphabet) and on concrete values, and compares with a reference where there
 // is a short one. `verif libprobe` runs every case and lists the unsupported ones.
-func VxLibProbe() {
+func VxHLibProbe() {
 	k := vxGet("k")
 	s := vxShape(vxStr("s", 3, vxClassPath), "")
 	t := vxShape(vxStr("t", 2, vxClassPath), "")
